@@ -134,6 +134,27 @@ def gen_cases(rng, tier, boost=1):
         bits = (be << 52) | rng.getrandbits(52) | 1
         cases.append("F 0 %d %d %d -" % (rng.randrange(3), pp, bits))
         dist["earlydrop"] += 1
+    # short decimal mantissas ending in 5, scaled by 10^e over the whole exponent range, printed with one
+    # digit less than the mantissa has (the rounding digit is that 5; whether the binary value lies above
+    # or below the decimal tie depends on digits dropped dozens of decimal places further down -- the
+    # "something non-zero was dropped" flag has to survive every drop step), all three formats
+    dist["dec5"] = 0
+    for _ in range((1500 if tier == "quick" else 40000) * boost):
+        nd = rng.randrange(1, 6)
+        mant = (dl.rand_digits(rng, nd - 1) if nd > 1 else "") + "5"
+        e = rng.choice([rng.randrange(20, 60), rng.randrange(20, 300), rng.randrange(-300, -5), rng.randrange(-5, 20)])
+        try:
+            x = float(mant[0] + ("." + mant[1:] if len(mant) > 1 else "") + "e" + str(e))
+        except OverflowError:
+            continue
+        if x == 0.0 or x == float("inf"):
+            continue
+        fmt = rng.choice([0, 0, 0, 1, 2])
+        prec = (nd - 1) if fmt == 0 else max(0, min(40, (nd - 1) - e))
+        if fmt == 0 and prec == 0:
+            prec = 1
+        cases.append("F 0 %d %d %d -" % (fmt, prec, dl.dbits(x)))
+        dist["dec5"] += 1
     for _ in range(nf):
         b = dl.rand_float_bits(rng)
         cases.append("G %d %d %d %d %s" % (rng.choice([0, 0, 1, 2]), rng.randrange(3), rng.choice([0, 1, 2, 6, 9, rng.randrange(0, 41)]), b, rng.choice(PREFIXES)))
